@@ -21,7 +21,11 @@ Qed.
 (* the notification of a single trace is its last entry *)
 Lemma silent_no_tn : forall t st ups stop, silent t -> ~ In (TN st ups stop) t.
 Proof. unfold silent. intros t st ups stop S I. rewrite Forall_forall in S. apply S in I. auto. Qed.
-Lemma single_the_tn : forall t st ups stop, single t -> In (TN st ups stop) t -> events_of t = deliver st ups stop.
+Lemma affected_refresh : forall st st0 ups, affected st (map (refresh st0) ups) = affected st ups.
+Proof.
+  intros. unfold affected, pairs. induction ups; simpl; auto. rewrite !map_app, IHups. f_equal. rewrite !map_map. auto.
+Qed.
+Lemma single_the_tn : forall t st ups stop, single t -> In (TN st ups stop) t -> events_of t = deliver st (map (refresh st) ups) stop.
 Proof.
   intros t st ups stop [S|(t0 & s & u & sp & E & S)] I.
   - exfalso. eapply silent_no_tn; eauto.
@@ -40,7 +44,7 @@ Theorem step_who : forall q st o st' ups i, WFI st -> In (TN st' ups None) (step
    exists n, In n (affected st' ups) /\ nid0 n = i /\ observes n = true).
 Proof.
   intros q st o st' ups i W I.
-  rewrite (single_the_tn _ _ _ _ (step_trace_single q st o) I).
+  rewrite (single_the_tn _ _ _ _ (step_trace_single q st o) I). rewrite <- (affected_refresh st' st' ups).
   apply deliver_who. apply affected_inj.
   assert (T := step_trace_ok q st o W). unfold trace_ok in T. rewrite Forall_forall in T. apply (T _ I).
 Qed.
@@ -48,10 +52,10 @@ Qed.
 Theorem step_payload : forall q st o st' ups e, WFI st -> In (TN st' ups None) (step_trace q st o) ->
   In e (events_of (step_trace q st o)) ->
   exists m, In m (affected st' ups) /\ observes m = true /\
-            ev_id e = nid0 m /\ ev_path e = npth m /\ ev_payload e = payload_spec st' ups m.
+            ev_id e = nid0 m /\ ev_path e = npth m /\ ev_payload e = payload_spec st' (map (refresh st') ups) m.
 Proof.
   intros q st o st' ups e W I E.
-  rewrite (single_the_tn _ _ _ _ (step_trace_single q st o) I) in E.
+  rewrite (single_the_tn _ _ _ _ (step_trace_single q st o) I) in E. rewrite <- (affected_refresh st' st' ups).
   apply deliver_payload; auto. apply affected_inj.
   assert (T := step_trace_ok q st o W). unfold trace_ok in T. rewrite Forall_forall in T. apply (T _ I).
 Qed.
@@ -79,7 +83,7 @@ Theorem step_children_first : forall q st o,
   children_first (map ev_path (events_of (step_trace q st o))).
 Proof.
   intros. destruct (single_events _ (step_trace_single q st o)) as [E|(s & u & sp & I & E)]; rewrite E.
-  simpl; auto. apply deliver_children_first. eauto.
+  simpl; auto. apply deliver_children_first. rewrite affected_refresh. eauto.
 Qed.
 
 (* --- the caller skips: Dict.update / |= never notify; rebind(skip_notification=True) does not ---------------------------------- *)
